@@ -4,7 +4,7 @@ PROPS["C06"] = dict(
          "values, audio FIFO with 0-16 queued words, handlers that log timer counters / pending bits, acknowledge, refill, echo "
          "mailboxes; main loop ending in the idle self-branch) run on three real Teakra instances with identical host events "
          "(SendData/SetSemaphore/RecvData/Clear/Mask/GetSemaphore/software trigger) at interval boundaries and different "
-         "slicing: one Run(n), n x Run(1), random mix incl. Run(0). distinct_nontrivial = distinct (timer modes, idle, audio, "
+         "slicing: one Run(n), n x Run(1), random mix incl. Run(0). Busy loops may bounce between the two 64K program pages (branch to 0x10000+own address). distinct_nontrivial = distinct (timer modes, idle, audio, "
          "skip taken?, interrupt taken?, audio frame seen?, host callback seen?) program classes compared",
     floors={Q: {"idle_skips_in_A": 2000, "handler_entries_approx": 1000, "audio_frames": 100, "host_callbacks": 50},
             T: {"idle_skips_in_A": 200000, "handler_entries_approx": 100000, "audio_frames": 10000, "host_callbacks": 5000}},
